@@ -115,6 +115,7 @@ def run(ctx, model):
                       esc_f.node.lineno, inp="U+E000")
     blob_in = sep.join(universe)
     n_bad = 0
+    changed = set()
     for order in (0, 1, 2, 3):
         blob = escape_of(model, blob_in, order)
         parts = blob.split(sep) if isinstance(blob, str) else None
@@ -123,6 +124,8 @@ def run(ctx, model):
                           esc_f.node.lineno, inp=f"set order {order}")
             continue
         for c, e in zip(universe, parts):
+            if e != c:
+                changed.add(c)       # whatever the escape rewrites (wherever its table lives) joins the pair stage below
             if order == 0:
                 ctx.instance("R-ESC", key=("char", c), sample=f"__escape({c!r}) = {e!r}" if c in touched or c in ".a" else None)
             try:
@@ -134,7 +137,7 @@ def run(ctx, model):
                 ctx.violation("R-ESC", esc_f.relpath, esc_f.short, "escape table",
                               "an escaped character is not matched literally (missing / wrong escape, or escape applied twice)",
                               esc_f.node.lineno, inp=f"U+{ord(c):04X} {c!r}", detail=f"__escape({c!r}) = {e!r} parses to {tree} [set order {order}]")
-    specials = sorted(touched | set("\\.^$*+?{}[]()|/-#&~ \nnbdswAZ0123"))
+    specials = sorted(touched | set(list(sorted(changed))[:40]) | set("\\.^$*+?{}[]()|/-#&~ \nnbdswAZ01237"))
     pairs = [a + b for a in specials for b in specials]
     ref = None
     for order in (0, 1, 2, 3):
